@@ -8,7 +8,7 @@ ASSUME = ['object projections are str(), get_pattern(), _get_type(), _is_repeata
           'histories are bounded as stated (heap size, length); operators are the stated subset in method spelling',
           'every history is replayed in separate processes under every listed PYTHONHASHSEED']
 
-ALL_OPS = {'concat', 'add', 'either', 'enclose', 'optional', 'one_or_more', 'exactly', 'mul', 'at_most', 'capture', 'group',
+ALL_OPS = {'refused', 'capture_n', 'capture_m', 'sub', 'concat', 'add', 'either', 'enclose', 'optional', 'one_or_more', 'exactly', 'mul', 'at_most', 'capture', 'group',
            'followed_by', 'not_preceded_by', 'match_at_line_start', 'or', 'invert', 'compile', 'get_compiled', 'match'}
 
 
@@ -28,13 +28,15 @@ def configs(tier, seed):
                             {'concat', 'add', 'either', 'optional', 'exactly', 'capture', 'group', 'compile', 'match'}, 4, 4),
                 heap_config('grouping-history-len4', {'ab', 'alt', 'altdup'}, {'group_ci', 'group', 'optional', 'mul', 'add', 'match'}, 4, 4),
                 heap_config('alias-cache-len5', {'a', 'empty', 'dollar'}, {'concat', 'exactly', 'at_most', 'mul', 'compile', 'get_compiled', 'match'}, 4, 5),
-                heap_config('classes-len4', {'from', 'between', 'a'}, {'or', 'invert', 'concat', 'optional', 'compile'}, 4, 4),
+                heap_config('classes-len4', {'from', 'between', 'a'}, {'or', 'sub', 'invert', 'concat', 'optional', 'compile'}, 5, 4),
+                heap_config('captures-refusals-len4', {'a', 'anchor', 'ab'}, {'capture_n', 'capture_m', 'add', 'one_or_more', 'exactly', 'refused', 'match'}, 5, 4),
                 heap_config('assertions-len4', {'a', 'anchor', 'empty'}, {'followed_by', 'not_preceded_by', 'match_at_line_start', 'enclose', 'one_or_more', 'match'}, 4, 4)]
     return [heap_config('grouping-history-len5', {'ab', 'alt', 'altdup', 'a'}, {'group_ci', 'group', 'optional', 'mul', 'add', 'exactly', 'match', 'compile'}, 5, 5),
             heap_config('pre-ops-len5', {'a', 'ab', 'empty', 'alt', 'dollar'},
                         {'concat', 'add', 'either', 'optional', 'exactly', 'capture', 'group', 'compile', 'match'}, 5, 5),
             heap_config('alias-cache-len6', {'a', 'empty', 'dollar'}, {'concat', 'exactly', 'at_most', 'mul', 'compile', 'get_compiled', 'match'}, 4, 6),
-            heap_config('classes-len5', {'from', 'between', 'a'}, {'or', 'invert', 'concat', 'optional', 'compile', 'match'}, 5, 5),
+            heap_config('classes-len5', {'from', 'between', 'a'}, {'or', 'sub', 'invert', 'concat', 'optional', 'compile', 'match'}, 6, 5),
+            heap_config('captures-refusals-len5', {'a', 'anchor', 'ab', 'alt'}, {'capture_n', 'capture_m', 'add', 'one_or_more', 'exactly', 'mul', 'refused', 'match', 'group'}, 6, 5),
             heap_config('assertions-len5', {'a', 'anchor', 'empty', 'alt'}, {'followed_by', 'not_preceded_by', 'match_at_line_start', 'enclose', 'one_or_more', 'match', 'group'}, 5, 5)]
 
 
